@@ -3,6 +3,7 @@ package main
 import (
 	"fmt"
 	"math/rand"
+	"os"
 	"sync"
 
 	"github.com/pingcap/kvproto/pkg/metapb"
@@ -31,6 +32,12 @@ import (
 // inside the race.
 const raceTag = "heartbeat-race"
 const lifeTag = "lifecycle-race"
+
+// address-race: three workers. W = some operation on a third store, parked inside its storage
+// write while it holds the cluster lock; P1, P2 = two registrations that want the same address,
+// started while W is parked so that both queue behind it and are let go together when W is
+// released; then all remaining release orders.
+const addrTag = "address-race"
 
 type raceWorker struct {
 	Name string  `json:"name"`
@@ -64,9 +71,9 @@ type raceInfo struct {
 
 type raceCase struct {
 	name  string
-	setup func() []*step    // sequential, fault-free, judged as usual
-	w     func() [2][]*step // operations of worker 0 and worker 1
-	names [2]string
+	setup func() []*step   // sequential, fault-free, judged as usual
+	w     func() [][]*step // operations of worker 0, 1 (, 2)
+	names []string
 }
 
 const rX = uint64(2)
@@ -87,7 +94,7 @@ func heartbeatCases() []raceCase {
 	off := func() []*step { return []*step{putX(), {Cmd: "remove", ID: rX}, {Cmd: "reload"}} }
 	hb := func() []*step { return one(&step{Cmd: "storehb", ID: rX}) }
 	mk := func(name string, setup func() []*step, l func() []*step) raceCase {
-		return raceCase{name: name, setup: setup, names: [2]string{"heartbeat", "lifecycle"}, w: func() [2][]*step { return [2][]*step{hb(), l()} }}
+		return raceCase{name: name, setup: setup, names: []string{"heartbeat", "lifecycle"}, w: func() [][]*step { return [][]*step{hb(), l()} }}
 	}
 	return []raceCase{
 		mk("remove", up, func() []*step { return one(&step{Cmd: "remove", ID: rX}) }),
@@ -118,7 +125,7 @@ func lifecycleCases() []raceCase {
 		return &step{Cmd: "put", Via: via, ID: rX, Addr: "tikv-b:20160", Version: "5.0.1", Labels: lbl("zone", "z2")}
 	}
 	mk := func(name string, setup func() []*step, a, b func() *step) raceCase {
-		return raceCase{name: name, setup: setup, names: [2]string{"A", "B"}, w: func() [2][]*step { return [2][]*step{one(a()), one(b())} }}
+		return raceCase{name: name, setup: setup, names: []string{"A", "B"}, w: func() [][]*step { return [][]*step{one(a()), one(b())} }}
 	}
 	rm := func(d bool) func() *step { return func() *step { return &step{Cmd: "remove", ID: rX, Destroyed: d} } }
 	upX := func() *step { return &step{Cmd: "up", ID: rX} }
@@ -162,10 +169,62 @@ func lifecycleCases() []raceCase {
 	}
 }
 
+func addressCases(thorough bool) []raceCase {
+	moveX := func() *step {
+		return &step{Cmd: "put", Via: "grpc", ID: rX, Addr: "tikv-b:20160", Version: "5.0.1", Labels: lbl("zone", "z2")}
+	}
+	type holder struct {
+		name  string
+		setup func() []*step // after the common setup
+		op    func() *step
+	}
+	holders := []holder{
+		{"weight", nil, func() *step { return &step{Cmd: "weight", ID: 1, LW: 2, RW: 0.5} }},
+		{"heartbeat-flush", func() []*step { return []*step{{Cmd: "reload"}} }, func() *step { return &step{Cmd: "storehb", ID: 1} }},
+		{"remove", func() []*step { return []*step{putN(6, "tikv-f:20160")} }, func() *step { return &step{Cmd: "remove", ID: 6} }},
+		{"bury", func() []*step { return []*step{putN(6, "tikv-f:20160"), {Cmd: "remove", ID: 6}} }, func() *step { return &step{Cmd: "bury", ID: 6} }},
+	}
+	type pair struct {
+		name  string
+		setup func() []*step
+		a, b  func() *step
+	}
+	up := func() []*step { return []*step{putX()} }
+	pairs := []pair{
+		{"put-new|put-new-same-address", up, func() *step { return putN(3, "tikv-c:20160") }, func() *step { return putN(4, "tikv-c:20160") }},
+		{"move-to-address|put-new-on-it", up, moveX, func() *step { return putN(3, "tikv-b:20160") }},
+		{"move-to-address|move-other-to-it", func() []*step { return []*step{putX(), putN(3, "tikv-c:20160")} }, moveX,
+			func() *step { return &step{Cmd: "put", Via: "cluster", ID: 3, Addr: "tikv-b:20160", Version: "5.0.0"} }},
+		{"up-offline-holder|put-new-on-address", func() []*step { return []*step{putX(), {Cmd: "remove", ID: rX}} },
+			func() *step { return &step{Cmd: "up", ID: rX} }, func() *step { return putN(3, rXAddr) }},
+		{"up-destroyed-holder|put-new-on-address", func() []*step { return []*step{putX(), {Cmd: "remove", ID: rX, Destroyed: true}} },
+			func() *step { return &step{Cmd: "up", ID: rX} }, func() *step { return putN(3, rXAddr) }},
+	}
+	var out []raceCase
+	for pi, p := range pairs {
+		for hi, h := range holders {
+			if !thorough && pi > 0 && hi > 0 {
+				continue // quick: every holder with the first pair, every pair with the first holder
+			}
+			p, h := p, h
+			out = append(out, raceCase{name: h.name + "-holds-lock|" + p.name, names: []string{"W", "P1", "P2"},
+				setup: func() []*step {
+					l := p.setup()
+					if h.setup != nil {
+						l = append(l, h.setup()...)
+					}
+					return l
+				},
+				w: func() [][]*step { return [][]*step{one(h.op()), one(p.a()), one(p.b())} }})
+		}
+	}
+	return out
+}
+
 func (e *env) racePhase(md *model, rng *rand.Rand) {
 	r := e.r
 	n := 0
-	run := func(tag string, c raceCase, order string, fault *raceFault, ackFinal bool) bool {
+	run := func(tag string, c raceCase, order []int, fault *raceFault, ackFinal bool) bool {
 		ex := &sched.Explorer{}
 		for {
 			ch := ex.Next()
@@ -174,10 +233,10 @@ func (e *env) racePhase(md *model, rng *rand.Rand) {
 			}
 			n++
 			if err := e.resetWorld(md); err != nil {
-				r.Inconclusive("%s %s/%s: %v", tag, c.name, order, err)
+				r.Inconclusive("%s %s/%v: %v", tag, c.name, order, err)
 				return false
 			}
-			hs := &historyState{H: -1000 - n, Backend: e.backend, Script: tag + "/" + c.name + "/" + order}
+			hs := &historyState{H: -1000 - n, Backend: e.backend, Script: fmt.Sprintf("%s/%s/start-order-%v", tag, c.name, order)}
 			for _, st := range c.setup() {
 				e.runStep(hs, st, nil, md)
 				if e.lost != "" {
@@ -203,14 +262,18 @@ func (e *env) racePhase(md *model, rng *rand.Rand) {
 			}
 		}
 	}
-	orders := []string{"0-first", "1-first"}
+	orders := [][]int{{0, 1}, {1, 0}}
 	variants := []raceFault{{0, 1, 1}, {0, 2, 1}, {1, 1, 1}, {1, 2, 1}}
 	for _, fam := range []struct {
 		tag      string
 		cases    []raceCase
 		ackFinal bool
-	}{{raceTag, heartbeatCases(), true}, {lifeTag, lifecycleCases(), false}} {
+	}{{raceTag, heartbeatCases(), true}, {lifeTag, lifecycleCases(), false}, {addrTag, addressCases(r.Thorough()), false}} {
 		for _, c := range fam.cases {
+			orders := orders
+			if fam.tag == addrTag {
+				orders = [][]int{{0, 1, 2}, {0, 2, 1}} // the lock holder always first
+			}
 			for _, order := range orders {
 				if !run(fam.tag, c, order, nil, fam.ackFinal) {
 					return
@@ -218,6 +281,9 @@ func (e *env) racePhase(md *model, rng *rand.Rand) {
 			}
 			// a storage fault inside the race: quick = one variant and one start order per case,
 			// thorough = every variant x both start orders
+			if fam.tag == addrTag {
+				continue
+			}
 			if r.Thorough() {
 				for i := range variants {
 					for _, order := range orders {
@@ -238,12 +304,14 @@ func (e *env) racePhase(md *model, rng *rand.Rand) {
 }
 
 // raceExec runs one gated execution and judges it; nil = no verdict possible (reported).
-func (e *env) raceExec(tag string, hs *historyState, md *model, c raceCase, order string, fault *raceFault, ackFinal bool,
+func (e *env) raceExec(tag string, hs *historyState, md *model, c raceCase, order []int, fault *raceFault, ackFinal bool,
 	ch func(int, []sched.Info) int) *sched.Sched {
 	r := e.r
 	ops := c.w()
-	info := &raceInfo{Family: tag, Case: c.name, Order: order, Fault: fault,
-		Workers: []*raceWorker{{Name: c.names[0], Ops: ops[0]}, {Name: c.names[1], Ops: ops[1]}}}
+	info := &raceInfo{Family: tag, Case: c.name, Order: fmt.Sprint(order), Fault: fault}
+	for i := range ops {
+		info.Workers = append(info.Workers, &raceWorker{Name: c.names[i], Ops: ops[i]})
+	}
 	ps := &step{Cmd: tag, ID: rX, Race: info, N: len(hs.Steps)}
 	hs.Steps = append(hs.Steps, ps)
 	prev := e.served()
@@ -296,9 +364,9 @@ func (e *env) raceExec(tag string, hs *historyState, md *model, c raceCase, orde
 			}
 		}
 	}
-	workers := []func(){mkWorker(0), mkWorker(1)}
-	if order == "1-first" {
-		workers = []func(){mkWorker(1), mkWorker(0)}
+	var workers []func()
+	for _, i := range order {
+		workers = append(workers, mkWorker(i))
 	}
 	s := sched.New()
 	s.Stagger = true
@@ -339,6 +407,14 @@ func (e *env) raceExec(tag string, hs *historyState, md *model, c raceCase, orde
 			ps.Injected = &cp
 		}
 	}
+	if os.Getenv("VERIF_DEBUG") != "" && tag == addrTag {
+		fmt.Printf("DEBUG %s %s order=%v blocked=%d trace=%v\n", tag, c.name, order, s.Blocked, s.Trace)
+		for _, w := range info.Workers {
+			for _, op := range w.Ops {
+				fmt.Printf("   %s %s id=%d addr=%s err=%q pb=%q call=%d ack=%d\n", w.Name, op.Cmd, op.ID, op.Addr, op.Err, op.PbErr, op.Call, op.Ack)
+			}
+		}
+	}
 	r.Eval(1)
 	r.Count("race_executions", 1)
 	r.Count("race_executions_"+tag, 1)
@@ -360,7 +436,7 @@ func (e *env) raceExec(tag string, hs *historyState, md *model, c raceCase, orde
 			r.Count("race_fault_planned_but_no_such_write", 1)
 		}
 	}
-	r.Distinct("race|" + tag + "|" + c.name + "|" + order + fkey + "|" + s.TraceKey())
+	r.Distinct("race|" + tag + "|" + c.name + "|" + info.Order + fkey + "|" + s.TraceKey())
 	var all []*step
 	for _, w := range info.Workers {
 		all = append(all, w.Ops...)
